@@ -91,7 +91,15 @@ def gen_case(ctx):
         for m in maps:
             if m["k"] != "translate" and m.get("origin") is None:
                 m["origin"] = geom.rand_vec(rng, -4, 4)
-    return {"entity": e, "maps": maps, "via": rng.choice(["method", "transform"])}
+    via = rng.choice(["method", "transform"])
+    if group in ("curve", "face", "loft") and via == "method" and rng.random() < 0.7:
+        # the origin of the first rotation / scaling / mirror is one of the entity's own points, exactly as the library
+        # hands it out (`curve.array[i]`): a live view of the data that is about to be transformed
+        for m in maps:
+            if m["k"] != "translate":
+                m["own_origin"] = True
+                break
+    return {"entity": e, "maps": maps, "via": via}
 
 
 def fixed_cases(tier):
@@ -303,7 +311,27 @@ def make_sketch(k, rng, o, fr, cb):
 
 
 # ------------------------------------------------------------------------------------------------ maps
-def apply_api(entity, maps, via, cb, snaps):
+def own_view(entity, group, seed):
+    """one of the entity's own points as the library hands it out (`curve.array[i]`, a view), or None"""
+    arrs = []
+    if group == "curve":
+        if hasattr(entity, "array"):
+            arrs.append(entity.array)
+    else:
+        faces = [entity] if group == "face" else [entity.bottom_face, entity.top_face]
+        for fc in faces:
+            for ed in fc.edges:
+                a = getattr(getattr(ed, "curve", None), "array", None)
+                if a is not None:
+                    arrs.append(a)
+    if not arrs:
+        return None
+    a = arrs[seed % len(arrs)]
+    p = a[seed % len(a)]
+    return p if isinstance(p, np.ndarray) and p.shape == (3,) else None
+
+
+def apply_api(entity, maps, via, cb, snaps, origin_obj=None):
     """apply the maps through the public API; array arguments are float64 ndarrays, snapshotted"""
     def arr(v):
         a = np.array(v, dtype=float)
@@ -314,6 +342,9 @@ def apply_api(entity, maps, via, cb, snaps):
     for m in maps:
         k = m["k"]
         origin = None if m.get("origin") is None else arr(m["origin"])
+        if origin_obj is not None:
+            origin = origin_obj
+            snaps.append((origin_obj, origin_obj.copy()))
         if via == "method":
             if k == "translate":
                 entity.translate(arr(m["d"]))
@@ -551,7 +582,12 @@ def run_case(ctx, case):
         except Exception:  # noqa: BLE001
             raise
     if via == "method":
-        for m in maps:
+        for mi, m in enumerate(maps):
+            view = own_view(Y, g, e["seed"]) if m.get("own_origin") else None
+            if view is not None:
+                ctx.count("origin:own-point-view")
+                m = dict(m, origin=view.copy().tolist())
+                mkinds[mi] = m["k"] + ":own-point"
             centre = own_centre(Y, g)
             if centre is None and m["k"] in ("rotate", "scale") and m.get("origin") is None:
                 centre = np.array(Y.center, dtype=float).copy()
@@ -561,7 +597,7 @@ def run_case(ctx, case):
             fn, s = geom_map(m, centre)
             steps.append(fn)
             scale_total *= s
-            apply_api(Y, [m], via, cb, snaps)
+            apply_api(Y, [m], via, cb, snaps, origin_obj=view)
     else:
         # transform([...]): the centre is taken before every transformation of the list
         Yc = copy.deepcopy(Y)
@@ -742,10 +778,22 @@ def copy_check_curve(ctx, e, cb, tag):
     X, _ = make_entity(e, cb)
     before = [X.get_point(t).copy() for t in ((0, 3, 6) if e["kind"] == "discrete" else (X.bounds[0], sum(X.bounds) / 2, X.bounds[1]))]
     C = X.copy()
+    C2 = X.copy()  # taken while everything X has derived so far (interpolants, lengths) is valid, and left alone
     C.translate([1.0, 2.0, 3.0])
     ctx.count("judged:copy-independent")
     ts = (0, 3, 6) if e["kind"] == "discrete" else (X.bounds[0], sum(X.bounds) / 2, X.bounds[1])
+    X2, _ = make_entity(e, cb)
+    [X2.get_point(t) for t in ts]
+    C3 = X2.copy()
+    X2.translate([-4.0, 5.0, 0.5])
     for t, b in zip(ts, before):
+        if not (np.linalg.norm(C3.get_point(t) - b) <= 1e-9):
+            ctx.violation(f"copy-follows-the-original:{tag}", f"original.translate([-4,5,0.5]) after copy(): the copy's point at {t} is {C3.get_point(t)}, was {b}")
+            return
+    for t, b in zip(ts, before):
+        if not (np.linalg.norm(C2.get_point(t) - b) <= 1e-9):
+            ctx.violation(f"copy-shares-state:{tag}", f"an untouched copy's point at {t} is {C2.get_point(t)}, the original had {b}")
+            return
         if not np.array_equal(X.get_point(t), b):
             ctx.violation(f"copy-shares-state:{tag}", f"translating the copy moved the original's point at {t}")
             return
@@ -762,7 +810,9 @@ def copy_check(ctx, e, cb, tag, extra):
     elif extra is not None:
         items = lambda ent: [cb.ExtrudedShape(ent, list(extra[1]))]  # noqa: E731
     c0 = content(items(X), cb)
+    c_first = c0
     C = X.copy()
+    C_untouched = X.copy()
     cc = content(items(C), cb)
     ctx.count("judged:copy-independent")
     ident = lambda p: np.array(p)  # noqa: E731
@@ -802,4 +852,9 @@ def copy_check(ctx, e, cb, tag, extra):
         c2 = content([cb.Loft(C, cb.Face([list(shift(p)) for p in extra[1]]))], cb)
     else:
         c2 = content(items(C), cb)
-    compare(ctx, c0, c2, shift, 1.0, 1e-7 * 5 + 3e-8, tag + ":translated-copy", ["translate"], "copy")
+    if not compare(ctx, c0, c2, shift, 1.0, 1e-7 * 5 + 3e-8, tag + ":translated-copy", ["translate"], "copy"):
+        return
+    # the other direction: the original moves on, a copy taken earlier (while everything derived was valid) stays
+    X.translate([-4.0, 5.0, 0.5])
+    c3 = content(items(C_untouched), cb)
+    compare(ctx, c_first, c3, ident, 1.0, 3e-8, tag + ":copy-after-original-moved", ["copy"], "copy")
